@@ -61,6 +61,20 @@ def run_c20(tape, r, tier, sandbox):
     nhosts = tape.choice((1, 2, 3), 'site.nhosts')
     site, starts, pages, assets, redirects = refsite.gen_site(tape, nhosts=nhosts, npages=tape.between(3, 8, 'site.npages'))
     main = site.origins[0]
+    if tape.chance(1, 50, 'site.many_origins'):
+        # a crawl over more origins than any reasonable cache bound (two URLs per origin, all first URLs before all second
+        # URLs): what was obtained for an origin stays obtained
+        n_or = tape.choice((101, 130), 'site.many_origins.n')
+        firsts, seconds = [], []
+        for i in range(n_or):
+            o = site.add_origin('http', 'h%03d.many.test' % i)
+            a = site.add(o, '/a.html', 'page')
+            b = site.add(o, '/b.html', 'page')
+            firsts.append(a)
+            seconds.append(b)
+        starts = list(starts) + firsts + seconds
+        pages += firsts + seconds
+        r.probes['many_origins'] += 1
     # an extra origin on the same host name (different scheme or port): robots.txt is per (scheme, host, port)
     if tape.chance(1, 3, 'site.sameHostOtherOrigin'):
         alt = site.add_origin(*tape.choice((('https', 'site.test', 443), ('http', 'site.test', 8081)), 'site.alt'), ip=main.ip)
